@@ -644,7 +644,10 @@ def runCb (s : St) (c : Cb) : St :=
       | some c =>
         let p := getP s c.idx
         let s := setP s c.idx { p with waiter := .none }
-        -- resumed inside `readany()`: unless the timeout struck, the chunks present now are popped first
+        -- resumed inside `readany()`: unless the timeout struck, a reader that raises does so before anything else is looked at
+        -- (even if a later parser call has meanwhile fed the end of the body): `except Exception` → force_close()
+        if !s.lingerTimedOut && resumeRaises p then startRun (fuelOf s) (forceClose (cancelLinger s)) .decide else
+        -- otherwise the chunks present now are popped first
         let s := if !s.lingerTimedOut && p.chunks > 0 && !resumeRaises p then drainChunks (cancelLinger s) c.idx p.chunks else s
         startRun (fuelOf s) s (.linger endT)
       | none => s
